@@ -1,8 +1,87 @@
-/- Model driver for C09 (stub: no ops yet). -/
+/-
+  Model driver for C09 (psychrometrics.py and its users).  Line protocol: see DrvCore.
+  Every float travels as its 16-hex-digit IEEE bit pattern.  A result that is not finite is
+  answered `nonfinite` (the Python side maps an exception or a non-finite value to the same token).
+  Imports only Mathlib-free files.
+-/
 import Ladybug.DrvCore
+import Ladybug.Model.Psychro
+
+open Drv Psychro
 
 namespace DrvC09
-def handle (_toks : List String) : String := "bad-op"
+
+def floats (l : List String) : Option (List Float) := l.mapM floatBits?
+
+def showFs (l : List Float) : String :=
+  if l.all Float.isFinite then "ok " ++ joinSp (l.map showFloatBits) else "nonfinite"
+
+def showF (x : Float) : String := showFs [x]
+
+def humType? (s : String) : Option HumType :=
+  if s = "Dewpoint" then some .dewpoint
+  else if s = "Wetbulb" then some .wetbulb
+  else if s = "HumidityRatio" then some .humidityRatio
+  else if s = "Enthalpy" then some .enthalpy
+  else none
+
+def chart? (useIp : String) (fs : List Float) : Option (Chart Float × List Float) :=
+  match bool? useIp, fs with
+  | some ip, bx :: by' :: xd :: yd :: mt :: p :: rest => some (⟨bx, by', xd, yd, mt, p, ip⟩, rest)
+  | _, _ => none
+
+def handle (toks : List String) : String :=
+  match toks with
+  | "dd_hourly" :: ty :: rest =>
+    -- dd_hourly <type> <value> <pressure> <db_max> <hourly db ...>  ->  max dew point, 24 dew points, 24 rh
+    match humType? ty, floats rest with
+    | some ty, some (value :: p :: dbMax :: hourly) =>
+      let maxDpt := ddDewPoint ty value p dbMax
+      showFs (maxDpt :: (ddHourlyDewPoint maxDpt hourly ++ ddHourlyRelHumid maxDpt hourly))
+    | _, _ => "bad-op"
+  | ["dd_dew", ty, value, p, db] =>
+    match humType? ty, floats [value, p, db] with
+    | some ty, some [value, p, db] => showF (ddDewPoint ty value p db)
+    | _, _ => "bad-op"
+  | "plot" :: useIp :: rest =>
+    match (floats rest).bind (chart? useIp) with
+    | some (c, [t, rh]) => let r := c.plotPoint t rh; showFs [r.1, r.2]
+    | _ => "bad-op"
+  | "datapt" :: useIp :: rest =>
+    match (floats rest).bind (chart? useIp) with
+    | some (c, [t, rh]) => let r := c.dataPoint t rh; showFs [r.1, r.2]
+    | _ => "bad-op"
+  | op :: args =>
+    match floats args with
+    | none => "bad-op"
+    | some fs =>
+      match op, fs with
+      | "svp", [t] => showF (satVapPres t)
+      | "dlnpws", [db] => showF (dLnPws db)
+      | "hr_db_rh", [db, rh, p] => showF (humidRatioFromDbRh db rh p)
+      | "enth", [db, hr, ref] => showF (enthalpyFromDbHr db hr ref)
+      | "rh_db_hr", [db, hr, p] => showF (relHumidFromDbHr db hr p)
+      | "rh_db_enth", [db, e, p, ref] => showF (relHumidFromDbEnth db e p ref)
+      | "rh_db_dpt", [db, dpt] => showF (relHumidFromDbDpt db dpt)
+      | "rh_db_wb", [db, wb, p] => showF (relHumidFromDbWb db wb p)
+      | "hr_db_wb", [db, wb, p] => showF (humidRatioFromDbWb db wb p)
+      | "db_enth_hr", [e, hr, ref] => showF (dbTempFromEnthHr e hr ref)
+      | "db_rh_hr", [rh, hr, p] => showF (dbTempFromRhHr rh hr p)
+      | "db_hr_wb_rh", [wb, rh, p] => let r := dbTempAndHrFromWbRh wb rh p; showFs [r.1, r.2]
+      | "dpt_db_rh", [db, rh] => showF (dewPointFromDbRh db rh)
+      | "wb_db_rh", [db, rh, p] => showF (wetBulbFromDbRh db rh p)
+      | "wb_db_hr", [db, hr, p] => showF (wetBulbFromDbHr db hr p)
+      | "dpt_db_hr", [db, hr, p] => showF (dewPointFromDbHr db hr p)
+      | "dpt_db_enth", [db, e, p, ref] => showF (dewPointFromDbEnth db e p ref)
+      | "dpt_db_wb", [db, wb, p] => showF (dewPointFromDbWb db wb p)
+      | "dpt_fast", [db, rh] => showF (dewPointFast db rh)
+      | "wb_fast", [db, rh, p] =>
+        match wetBulbFast db rh p with
+        | some x => showF x
+        | none => "nofuel"
+      | _, _ => "bad-op"
+  | _ => "bad-op"
+
 end DrvC09
 
 def main : IO Unit := Drv.run DrvC09.handle
